@@ -619,7 +619,7 @@ type config struct {
 
 func configs(quick bool) []config {
 	allow := map[string]bool{"rotate": true, "flush": true, "l0-base": true, "ingest-drain": true}
-	_ = allow
+
 	small := dbh.Config{Engine: "skiplist", DetectConflicts: true}
 	art := dbh.Config{Engine: "art", DetectConflicts: true}
 	txnCore := []string{"t:a:v", "t:a:d", "vs:a:V", "t2"}
@@ -634,12 +634,13 @@ func configs(quick bool) []config {
 			{params{Name: "txn-3reopen", Cfg: small, ClientOps: []string{"t:a:v"}, MaxClient: 3, MaxMaint: 0, MaxReopen: 3, MaintAllow: am, Macro: true}, 6},
 		}
 	}
+	am := map[string]bool{"rf": true, "l0-base": true, "ingest-drain": true}
 	return []config{
-		{params{Name: "txn-core", Cfg: small, ClientOps: txnCore, MaxClient: 4, MaxMaint: 4, MaxReopen: 3, MaintAllow: allow}, 10},
-		{params{Name: "txn-wide", Cfg: small, ClientOps: txnWide, MaxClient: 3, MaxMaint: 3, MaxReopen: 2, MaintAllow: allow}, 7},
-		{params{Name: "txn-wide-art", Cfg: art, ClientOps: txnWide, MaxClient: 3, MaxMaint: 2, MaxReopen: 2, MaintAllow: allow}, 6},
-		{params{Name: "plain", Cfg: small, ClientOps: plain, MaxClient: 3, MaxMaint: 4, MaxReopen: 3, Plain: true, MaintAllow: allow}, 9},
-		{params{Name: "plain-art", Cfg: art, ClientOps: plain, MaxClient: 3, MaxMaint: 2, MaxReopen: 2, Plain: true, MaintAllow: allow}, 6},
+		{params{Name: "txn-core", Cfg: small, ClientOps: txnCore, MaxClient: 3, MaxMaint: 4, MaxReopen: 3, MaintAllow: allow}, 8},
+		{params{Name: "txn-wide", Cfg: small, ClientOps: txnWide, MaxClient: 3, MaxMaint: 2, MaxReopen: 2, MaintAllow: am, Macro: true}, 6},
+		{params{Name: "txn-wide-art", Cfg: art, ClientOps: txnWide, MaxClient: 2, MaxMaint: 2, MaxReopen: 2, MaintAllow: am, Macro: true}, 5},
+		{params{Name: "plain", Cfg: small, ClientOps: plain, MaxClient: 3, MaxMaint: 3, MaxReopen: 2, Plain: true, MaintAllow: allow}, 7},
+		{params{Name: "plain-art", Cfg: art, ClientOps: plain, MaxClient: 2, MaxMaint: 2, MaxReopen: 2, Plain: true, MaintAllow: am, Macro: true}, 5},
 	}
 }
 
